@@ -1,6 +1,8 @@
 package drv
 
 import (
+	"github.com/avfs/avfs/vfs/rofs"
+
 	"bufio"
 	"encoding/json"
 	"fmt"
@@ -89,7 +91,32 @@ func (s *Session) Step(tr string, i int, c Call, names []string) Event {
 		ev.Inv = s.Check()
 	}
 
+	if s.Wrap != "" {
+		ev.Mt = s.MtimeDigest()
+	}
+
 	return ev
+}
+
+func permClass(e string) bool { return e == "EACCES" || e == "EPERM" }
+
+// WrapWith puts a wrapper around the session's file system; calls go through the wrapper from now on
+// while the projection keeps reading the base. The returned pseudo event marks the switch in the trace.
+func (s *Session) WrapWith(tr string, i int, kind string, names []string) Event {
+	s.Base = s.FS
+	s.Wrap = kind
+
+	switch kind {
+	case "rofs":
+		s.FS = rofs.New(s.Base)
+	}
+
+	c := Call{Op: "wrap", Flag: []string{kind}}
+	normCall(&c)
+	snap := s.Project(names)
+
+	return Event{Tr: tr, I: i, Fs: s.Target, Call: c, Res: NewRes("ok"), Post: snap.Post, Hs: snap.Hs, Cwd: snap.Cwd,
+		Srt: snap.Srt, Inv: "ok", Mt: s.MtimeDigest()}
 }
 
 // BuildCalls returns elementary calls (mkdir, writefile, link, symlink, chown, chmod on fresh names)
@@ -353,13 +380,26 @@ func (f *Factory) replayEdge(idx int, e *Edge, names []string) (EdgeResult, erro
 		}
 	}
 
+	if e.Wrap != "" {
+		trace = append(trace, s.WrapWith(tr, len(trace)+1, e.Wrap, names))
+
+		for _, c := range e.Wh {
+			normCall(&c)
+			trace = append(trace, s.Step(tr, len(trace)+1, c, names))
+		}
+	}
+
 	ev := s.Step(tr, len(trace)+1, e.Call, names)
 	trace = append(trace, ev)
 
-	okRes := ResEqual(e.Call.Op, ev.Res, e.Res)
+	okRes := ResEqual(e.Call.Op, ev.Res, e.Res) || (e.Wrap == "rofs" && permClass(ev.Res.Err) && permClass(e.Res.Err))
 	okPost := EqualPost(ev.Post, f.adapt(e.Post))
 	okCwd := ev.Cwd.Render() == e.Cwd.Render()
 	okInv := ev.Inv == "ok" && ev.Srt
+
+	if e.Wrap == "rofs" && len(trace) > 1 && trace[len(trace)-2].Mt != ev.Mt {
+		okInv = false // a modification time of the base changed under a read-only wrapper
+	}
 
 	if okRes && okPost && okCwd && okInv {
 		r.Status = "ok"
